@@ -31,7 +31,7 @@ CONFIGS = {
 }
 
 # lower bounds on the number of function bodies the driver must have produced per crate
-FN_FLOORS = {'revm': 650, 'revm_interpreter': 600, 'revm_primitives': 600, 'revm_precompile': 90}
+FN_FLOORS = {'revm': 650, 'revm_interpreter': 550, 'revm_primitives': 600, 'revm_precompile': 90}
 
 
 def sh(cmd, **kw):
